@@ -76,7 +76,7 @@ def clauses(chk, F):
                 want = T.norm_pred(('cmp', 'lt', ('app', 'elapsed', (ss[6],)), ss[1]), True, cons)
                 if not ps or any((p[0], p[1]) != (want[0], want[1]) for p in ps) or {p[2] for p in ps} != {True, False}:
                     status, why = 'refuted', 'poll(channel %d) does not split exactly on elapsed(arrival) < timeout: recorded %s' % (k, [T.pred_str(p) for p in ps])
-            cur = (status, why, [scanners.describe_row(F, r) for r in rows][:3])
+            cur = (status, why, [scanners.describe_row(F, r) for r in rows[:3]])
             res_poll[shape] = _worse(res_poll[shape], cur) if shape in res_poll else cur
             # ---- time taint of feed
             status, why, n = 'proved', '', 0
